@@ -1,9 +1,213 @@
 package main
 
 import (
-	_ "golang.org/x/tools/go/packages"
-	_ "golang.org/x/tools/go/ssa"
-	_ "golang.org/x/tools/go/ssa/ssautil"
+	"flag"
+	"fmt"
+	"os"
+	"path/filepath"
+	"sort"
+	"strings"
+	"sync"
+	"time"
 )
 
-func main() {}
+type ObligResult struct {
+	O   *Oblig
+	Res SolveResult
+}
+
+// NameResult aggregates all path instances of one named obligation.
+type NameResult struct {
+	Name      string
+	Props     []string
+	Kind      string
+	Instances int
+	Status    string // discharged failed undecided
+	Failing   *ObligResult
+	Time      float64
+	Solvers   map[string]int
+	Func      string
+}
+
+func solveAll(obs []*Oblig, sv *Solver, workers int) []ObligResult {
+	out := make([]ObligResult, len(obs))
+	var wg sync.WaitGroup
+	ch := make(chan int)
+	cache := map[string]SolveResult{}
+	var mu sync.Mutex
+	for w := 0; w < workers; w++ {
+		wg.Add(1)
+		go func() {
+			defer wg.Done()
+			for i := range ch {
+				q := obs[i].query(nil, true)
+				mu.Lock()
+				r, ok := cache[q]
+				mu.Unlock()
+				if !ok {
+					r = sv.solve(q, solverOrder(q))
+					mu.Lock()
+					cache[q] = r
+					mu.Unlock()
+				}
+				out[i] = ObligResult{obs[i], r}
+			}
+		}()
+	}
+	for i := range obs {
+		ch <- i
+	}
+	close(ch)
+	wg.Wait()
+	return out
+}
+
+func aggregate(rs []ObligResult) []*NameResult {
+	m := map[string]*NameResult{}
+	var order []string
+	for i := range rs {
+		r := &rs[i]
+		n := m[r.O.Name]
+		if n == nil {
+			n = &NameResult{Name: r.O.Name, Props: r.O.Props, Kind: r.O.Kind, Status: "discharged", Solvers: map[string]int{}, Func: r.O.Unit.fnShort(r.O.Unit.fn)}
+			m[r.O.Name] = n
+			order = append(order, r.O.Name)
+		}
+		n.Instances++
+		n.Time += r.Res.Time
+		if r.Res.Solver != "" {
+			n.Solvers[r.Res.Solver]++
+		}
+		switch r.Res.Status {
+		case "unsat":
+		case "sat":
+			if n.Status != "failed" {
+				n.Status = "failed"
+				n.Failing = r
+			}
+		default:
+			if n.Status == "discharged" {
+				n.Status = "undecided"
+				n.Failing = r
+			}
+		}
+	}
+	sort.Strings(order)
+	var out []*NameResult
+	for _, k := range order {
+		out = append(out, m[k])
+	}
+	return out
+}
+
+func hasProp(ps []string, p string) bool {
+	for _, x := range ps {
+		if x == p {
+			return true
+		}
+	}
+	return false
+}
+
+func main() {
+	if len(os.Args) < 2 {
+		fmt.Fprintln(os.Stderr, "usage: govc check|dump ...")
+		os.Exit(2)
+	}
+	switch os.Args[1] {
+	case "dump":
+		cmdDump(os.Args[2:])
+	case "check":
+		cmdCheck(os.Args[2:])
+	case "replay":
+		cmdReplay(os.Args[2:])
+	default:
+		fmt.Fprintln(os.Stderr, "unknown command")
+		os.Exit(2)
+	}
+}
+
+func scratchDir(verif string) string {
+	base := os.Getenv("VERIF_SCRATCH")
+	if base == "" {
+		home, _ := os.UserHomeDir()
+		base = filepath.Join(home, ".cache", "verif-scratch")
+	}
+	d := filepath.Join(base, fmt.Sprintf("run%d", os.Getpid()))
+	os.MkdirAll(d, 0755)
+	return d
+}
+
+// cmdDump verifies the named functions (or all) and prints every obligation: a debugging aid.
+func cmdDump(args []string) {
+	fs := flag.NewFlagSet("dump", flag.ExitOnError)
+	repo := fs.String("repo", "/repo", "repository")
+	verif := fs.String("verif", "/verif", "verif dir")
+	fnPat := fs.String("fn", "", "substring of function key")
+	prop := fs.String("prop", "", "only obligations of this property")
+	tmo := fs.Int("timeout", 10, "solver timeout (s)")
+	keep := fs.Bool("keep", false, "keep scratch files")
+	verbose := fs.Bool("v", false, "print models")
+	fs.Parse(args)
+	p, err := loadProg(*repo, *verif)
+	if err != nil {
+		fmt.Fprintln(os.Stderr, "load:", err)
+		os.Exit(2)
+	}
+	sd := scratchDir(*verif)
+	if !*keep {
+		defer os.RemoveAll(sd)
+	}
+	sv := &Solver{scratch: sd, timeout: time.Duration(*tmo) * time.Second}
+	var obs []*Oblig
+	for _, fn := range p.unitsToVerify() {
+		if *fnPat != "" && !strings.Contains(p.keyOf[fn], *fnPat) {
+			continue
+		}
+		t0 := time.Now()
+		u := p.verifyFunc(fn)
+		fmt.Printf("== %s: %d paths, %d returns, %d obligation instances (%.2fs)", p.keyOf[fn], u.npaths, u.nreturns, len(u.obligs), time.Since(t0).Seconds())
+		if u.unsupported != "" {
+			fmt.Printf("  UNSUPPORTED: %s", u.unsupported)
+		}
+		fmt.Println()
+		for _, n := range u.notes {
+			fmt.Println("   note:", n)
+		}
+		for _, o := range u.obligs {
+			if *prop == "" || hasProp(o.Props, *prop) {
+				obs = append(obs, o)
+			}
+		}
+	}
+	for _, k := range p.unboundContracts() {
+		fmt.Println("UNBOUND contract:", k)
+	}
+	rs := solveAll(obs, sv, 16)
+	for _, n := range aggregate(rs) {
+		fmt.Printf("%-11s %-70s inst=%d %.2fs %v\n", n.Status, n.Name, n.Instances, n.Time, n.Solvers)
+		if n.Failing != nil {
+			fmt.Printf("     at %s:%d  [%s] file=%s tried=%v\n", filepath.Base(n.Failing.O.Pos.Filename), n.Failing.O.Pos.Line, n.Failing.Res.Status, n.Failing.Res.File, n.Failing.Res.Tried)
+			if n.Failing.Res.Status == "sat" {
+				for k, v := range parseValues(n.Failing.O, n.Failing.Res.Output) {
+					fmt.Printf("       %s = %s\n", k, v)
+				}
+			}
+			if *verbose || n.Failing.Res.Status == "error" {
+				fmt.Println(indent(firstLines(n.Failing.Res.Output, 12), "       | "))
+			}
+		}
+	}
+}
+
+func firstLines(s string, n int) string {
+	ls := strings.Split(s, "\n")
+	if len(ls) > n {
+		ls = ls[:n]
+	}
+	return strings.Join(ls, "\n")
+}
+
+func indent(s, p string) string {
+	return p + strings.ReplaceAll(s, "\n", "\n"+p)
+}
